@@ -16,6 +16,8 @@ pub enum H {
     Open(usize),
     Read(usize),
     Hash(usize),
+    /// get_file and get_hash of a name the archive does not hold: Ok(None), nothing disturbed
+    Missing,
 }
 
 const READS: [usize; 6] = [0, 1, 3, 7, 64, 1000];
@@ -33,6 +35,7 @@ fn alphabet(nfiles: usize, file_open: bool) -> Vec<H> {
     for f in 0..nfiles {
         v.push(H::Hash(f));
     }
+    v.push(H::Missing);
     v
 }
 
@@ -103,6 +106,13 @@ pub fn run_history(s: &Subject, hist: &[H], rep: &mut Report) -> Option<(Value, 
                 }
                 H::Read(_) => {
                     // a read without an open file cannot occur (generator), skip defensively
+                    i += 1;
+                }
+                H::Missing => {
+                    match (rd.get_file("no such file".to_string()).map(|o| o.is_none()), rd.get_hash("no such file").map(|o| o.is_none())) {
+                        (Ok(true), Ok(true)) => {}
+                        other => return Some((json!({"kind": "missing_name_not_reported_as_none", "layers": lt}), format!("step {i}: get_file/get_hash of an absent name = {other:?}"))),
+                    }
                     i += 1;
                 }
                 H::Open(f) => {
@@ -258,9 +268,9 @@ pub fn run(started: Instant) -> i32 {
         rep,
         Meta {
             level: "model_checking",
-            rule: "for each subject archive (3 programs x 4 layer combinations, real writer) ALL histories of exactly `depth` operations over {list, open(f) for 3 files (dropping the previously open file object, possibly midway), read(k) k in {0,1,3,7,64,1000} on the open file, hash(f)} are executed on one real ArchiveReader, checking at every step: listing, size, hash and the bytes returned since the last open equal the file read alone on a fresh reader; zero-length result only at end of file. No pruning. states = distinct (subject, history); non-trivial = histories that open at least two files or mix open with hash".to_string(),
+            rule: "for each subject archive (3 programs x 4 layer combinations, real writer) ALL histories of exactly `depth` operations over {list, open(f) for 3 files (dropping the previously open file object, possibly midway), read(k) k in {0,1,3,7,64,1000} on the open file, hash(f), get_file+get_hash of an absent name} are executed on one real ArchiveReader, checking at every step: listing, size, hash and the bytes returned since the last open equal the file read alone on a fresh reader; zero-length result only at end of file. No pruning. states = distinct (subject, history); non-trivial = histories that open at least two files or mix open with hash".to_string(),
             exhaustive: true,
-            bounds: json!({"depth": depth, "alphabet": 13, "subjects": subs.len(), "histories_per_subject": hists.len()}),
+            bounds: json!({"depth": depth, "alphabet": 14, "subjects": subs.len(), "histories_per_subject": hists.len()}),
             assumptions: vec!["scaled constants".to_string()],
         },
         started,
@@ -273,6 +283,7 @@ fn hjson(h: &H) -> Value {
         H::Open(f) => json!(["open", f]),
         H::Read(k) => json!(["read", k]),
         H::Hash(f) => json!(["hash", f]),
+        H::Missing => json!(["missing"]),
     }
 }
 
@@ -291,6 +302,7 @@ pub fn replay(path: &str) -> i32 {
                         "open" => H::Open(n),
                         "read" => H::Read(n),
                         "hash" => H::Hash(n),
+                        "missing" => H::Missing,
                         _ => H::List,
                     }
                 })
